@@ -383,3 +383,59 @@ def find_class_cases():
 
 
 CHECKS["find_class"] = (find_class_cases, check_find_class)
+
+
+# ----------------------------------------------------------------------------- json_extends (C18 inheritance, C07 caller's settings untouched): every chain over a small universe
+def check_json_extends(case):
+    import copy
+    from pams.utils.json_extends import json_extends
+    case = copy.deepcopy(case)         # a body that writes into its arguments must not corrupt the recorded input or later cases
+    whole, start, excl = case["whole"], case["start"], case["excludes"]
+    target = whole[start]
+    w0, t0 = copy.deepcopy(whole), copy.deepcopy(target)
+    # oracle: own keys, then for each remaining key the value of the nearest ancestor defining it (non-inheritable keys skipped); errors for missing parents and cycles
+    want = {k: v for k, v in target.items() if k != "extends"}
+    seen = [start]; cur = target; err = None
+    while "extends" in cur:
+        p = cur["extends"]
+        if p not in whole:
+            err = "missing"; break
+        if p in seen:
+            err = "cycle"; break
+        seen.append(p); cur = whole[p]
+        for k, v in cur.items():
+            if k != "extends" and k not in (excl or []) and k not in want:
+                want[k] = v
+    try:
+        got = json_extends(whole_json=whole, parent_name=start, target_json=target, excludes_fields=excl)
+    except ValueError:
+        if whole != w0 or target != t0:
+            return f"{case}: the caller's settings were modified"
+        return None if err else f"{case}: ValueError on a valid inheritance chain"
+    if whole != w0 or target != t0:
+        return f"{case}: the caller's settings were modified"
+    if err:
+        return f"{case}: {err} parent not reported (returned {got})"
+    if got != want:
+        return f"{case}: result {got}, expected {want} (own keys, then the nearest ancestor defining each remaining key)"
+    if got is target or any(got is v for v in whole.values()):
+        return f"{case}: the result is not a fresh dict"
+    return None
+
+
+def json_extends_cases():
+    names = ["a", "b", "c", "d"]
+    bodies = [{"x": 1}, {"x": 2, "y": 2}, {"y": 3, "from": 5}, {"z": 4, "x": 9}]
+    for parents in itertools.product([None, "a", "b", "c", "d", "missing"], repeat=4):
+        whole = {}
+        for nme, body, par in zip(names, bodies, parents):
+            e = dict(body)
+            if par is not None:
+                e["extends"] = par
+            whole[nme] = e
+        for start in ("a", "d"):
+            for excl in (None, ["from"], ["x"]):
+                yield {"whole": whole, "start": start, "excludes": excl}
+
+
+CHECKS["json_extends"] = (json_extends_cases, check_json_extends)
